@@ -27,7 +27,12 @@ CONFIG = {
                   "empty out-queue, 65536+j bytes accepted and 65536 released - proved by an inductive characterisation of the run "
                   "(A's cache frozen at the first 128 acks), not by evaluation. C07_window_loop: the model runs the acceptance-window "
                   "loop of InQueue.Append as written (wrapping uint16 counter) and it equals the closed form used by the invariants, "
-                  "for all loop bounds. "
+                  "for all loop bounds. C07_window_accepts_iff / _closed_form_iff / _refuses_behind / C07_stale_packet_refused / C07_parked_iff_window: "
+                  "with the regenerated bounds the loop lets a number through iff it is 1..127 ahead of the expected one (mod 2^16); every "
+                  "packet 1..65408 behind fails it, Append then returns the sequence error and leaves the queue untouched unless the "
+                  "duplicate cache still knows the packet; a packet is parked in the reorder buffer exactly when it is in that window. "
+                  "C07_witness_int16_window (kernel-checked): a signed 16-bit 'distance >= MaxCachedChunks' test lets packets 129, 200 and "
+                  "30000 behind through. "
                   "The client's own poll loop (the goroutine Handshake starts): C07_eventual_delivery_by_poll - after ANY history of the "
                   "multi-write model (Writes given up part-way after five lost exchanges, parked, any fate script) once the path has "
                   "healed n turns of the loop and nothing else, n >= |A.out|, n >= |B.out|+1, leave both out-queues empty and the server "
@@ -58,7 +63,10 @@ CONFIG = {
                    {"name": "dnsretry", "timeout": {"quick": 300, "thorough": 600}},
                    {"name": "dnswrites", "timeout": {"quick": 300, "thorough": 600}},
                    {"name": "dnspoll", "timeout": {"quick": 300, "thorough": 600}}],
-    "rule": "queue: one op = one whole history on real InQueue/OutQueue pairs of two endpoints; enumerated: 5x5 starting sequence "
+    "rule": "queue monitors on the real InQueue at every event: the reorder buffer holds only packets 1..MaxCachedChunks-1 ahead of the expected "
+            "one; a replayed query whose packet is behind and no longer in the duplicate cache is refused and leaves no trace. Replays "
+            "127, 128, 129, 130, 200, 1000, 30000 exchanges old x starts {0, across the wrap, 65535} (thorough: on to the wrap). "
+            "queue: one op = one whole history on real InQueue/OutQueue pairs of two endpoints; enumerated: 5x5 starting sequence "
             "numbers {0,127,128,65408,65535} x 8 single-fault patterns, 5 mtus x 7 write-size classes {0,1,mtu-1,mtu,mtu+1,3mtu,3mtu+1}, "
             "8 wrap-crossing histories (start near 65535, > 2*MaxCachedChunks packets, with and without faults), one 66000-packet "
             "history from sequence number 0 (thorough: three more of 70000 packets with faults in both directions); random: 300 "
